@@ -202,7 +202,7 @@ pub fn check_record(r: &Value) -> Verdict {
             // only entities of one scope can collide: all global-scope kinds (enum values included), the
             // members of one struct, the parameters and locals of one function
             let same_scope = match (scopes.get(&stem), scopes.get(&o_stem)) {
-                (Some(a), Some(b)) => a == b && a != "template",
+                (Some(a), Some(b)) => a == b && a != "template" && a != "ns:*",
                 _ => true,
             };
             if !allowed && same_scope {
@@ -257,6 +257,7 @@ enum Kind {
     EnumValue(usize),
     Global,
     TemplateParam,
+    Namespace,
 }
 
 fn collect_locals(ss: &[St], f: usize, out: &mut Vec<(usize, Kind)>) {
@@ -307,6 +308,13 @@ fn entities(p: &Prog) -> Vec<(usize, Kind)> {
     for g in &p.globals {
         v.push((g.name, Kind::Global));
     }
+    for it in &p.items {
+        if let progen::Item::NamespaceBegin(n) = it {
+            if !v.iter().any(|(m, k)| m == n && *k == Kind::Namespace) {
+                v.push((*n, Kind::Namespace));
+            }
+        }
+    }
     for (i, f) in p.funcs.iter().enumerate() {
         if !v.iter().any(|(n, k)| *n == f.name && *k == Kind::Func) {
             v.push((f.name, Kind::Func));
@@ -352,7 +360,19 @@ fn record_for(p: &Prog, renamed: &Prog, map: Vec<(String, String)>, verbatim: Ve
     let mut scopes = serde_json::Map::new();
     for (n, k) in entities(p) {
         let tag = match k {
-            Kind::Func | Kind::Struct | Kind::Enum | Kind::EnumValue(_) | Kind::Global => "global".to_string(),
+            Kind::Func => {
+                // the scope of a function is its namespace; a name used in several namespaces has no single scope
+                let mut paths: Vec<Vec<usize>> = (0..p.funcs.len()).filter(|i| p.funcs[*i].name == n).map(|i| p.func_ns[i].clone()).collect();
+                paths.sort();
+                paths.dedup();
+                match paths.as_slice() {
+                    [one] if one.is_empty() => "global".to_string(),
+                    [one] => format!("ns:{}", one.iter().map(|x| p.names[*x].clone()).collect::<Vec<_>>().join("::")),
+                    _ => "ns:*".to_string(),
+                }
+            }
+            Kind::Namespace => "global".to_string(),
+            Kind::Struct | Kind::Enum | Kind::EnumValue(_) | Kind::Global => "global".to_string(),
             Kind::Field(s) => format!("struct{}", s),
             Kind::Param(f) | Kind::Local(f) => format!("function{}", f),
             Kind::TemplateParam => "template".to_string(),
